@@ -418,12 +418,19 @@ func usesV4(w *worker, ci *caseInfo, v any) {
 		w.helper(ci, &hFormatCircuit, "c, _ := ztpv4.ParseCircuitID(v); _ = c.FormatCircuitID()", func() { _ = cid.FormatCircuitID() })
 	}
 	w.helper(ci, &hNetconf4, "_, _ = netboot.GetNetConfFromPacketv4(v)", func() { _, _ = netboot.GetNetConfFromPacketv4(p) })
+	w.helper(ci, &hConv4, "_, _ = netboot.ConversationToNetconfv4([]*dhcpv4.DHCPv4{v})", func() { _, _ = netboot.ConversationToNetconfv4([]*dhcpv4.DHCPv4{p}) })
 	w.helper(ci, &hIsOptionRequestedLoop, "for _, c := range v.ParameterRequestList() { _ = v.IsOptionRequested(c) }", func() {
 		for _, c := range p.ParameterRequestList() {
 			_ = p.IsOptionRequested(c)
 		}
 	})
 }
+
+var (
+	convFixedOnce sync.Once
+	convFixed6    []dhcpv6.DHCPv6
+	convFixed4    []*dhcpv4.DHCPv4
+)
 
 // replyForRelay is the reply handed to NewRelayReplFromRelayForw ("some reply").
 func replyForRelay() *dhcpv6.Message {
@@ -446,6 +453,30 @@ func usesV6(w *worker, ci *caseInfo, v any) {
 		d = x
 	default:
 		return
+	}
+	// conversations that contain this very value (whatever entry point decoded it): alone, and next to
+	// the two messages that steer the extractor (an ADVERTISE with boot file URL, a full REPLY), in both orders
+	convFixedOnce.Do(func() {
+		for _, n := range v6ConversationSet() {
+			if strings.HasPrefix(n.name, "advertise(boot-file-url") || strings.HasPrefix(n.name, "reply(IA_NA,boot-file-url") {
+				if m, err := dhcpv6.FromBytes(n.b); err == nil {
+					convFixed6 = append(convFixed6, m)
+				}
+			}
+		}
+		for _, n := range v4ConversationSet() {
+			if m, err := dhcpv4.FromBytes(n.b); err == nil && len(convFixed4) < 2 && (m.MessageType() == dhcpv4.MessageTypeOffer || m.MessageType() == dhcpv4.MessageTypeAck) {
+				convFixed4 = append(convFixed4, m)
+			}
+		}
+	})
+	w.helper(ci, &hConv6, "_, _ = netboot.ConversationToNetconf([]dhcpv6.DHCPv6{v})", func() { _, _ = netboot.ConversationToNetconf([]dhcpv6.DHCPv6{d}) })
+	for i, f := range convFixed6 {
+		f := f
+		w.helper(ci, &hConv6, fmt.Sprintf("// fixed message %d of the conversation alphabet (see DESIGN C03) before and after v\n\t_, _ = netboot.ConversationToNetconf([]dhcpv6.DHCPv6{v})", i), func() {
+			_, _ = netboot.ConversationToNetconf([]dhcpv6.DHCPv6{d, f})
+			_, _ = netboot.ConversationToNetconf([]dhcpv6.DHCPv6{f, d})
+		})
 	}
 	w.helper(ci, &hDecap, "_, _ = dhcpv6.DecapsulateRelay(v)", func() { _, _ = dhcpv6.DecapsulateRelay(d) })
 	for idx := -1; idx <= 3; idx++ {
